@@ -12,6 +12,7 @@ func init() { registry["C18"] = checkC18 }
 func checkC18(c *Ctx, r *Report) {
 	r.Explain = "Decides structural necessary conditions of 'resync equals evaluating the new sync function from scratch': (R1) a resync run that completed reports success only after principal invalidation (or principal sequence regeneration) ran and succeeded, the invalidation visits every user (roles and channels) and every role, and storage errors on that path propagate; (R2) the per-document resync applies the same trio as the write path — channel assignment, user access grants and role grants — to the outputs of the sync-function evaluation, evaluates every leaf revision, and applies grants only for the current revision; (R3) a rejected evaluation contributes nothing: on the failure edge of the evaluation the values reaching channel assignment, access and role grants are all nil (resync), and the write path returns before applying any of them. Not decided: differential equivalence with a freshly built database, idempotence of a second run, races with concurrent writes."
 	c18R1(c, r)
+	checkInvalidationPersisted(c, r, "C18-R1")
 	c18R2R3(c, r)
 }
 
@@ -217,6 +218,50 @@ func c18R2R3(c *Ctx, r *Report) {
 		// R3: rejected evaluation contributes nothing
 		ok, why := nilOnFailure(lit, arg, nilEdges, c.ResultOf(s.resIdx, nameIs("(*db.DatabaseCollectionWithUser).getChannelsAndAccess")))
 		r.Check("C18-R3", construct+" nil-on-rejected-evaluation", c.Pos(found.Pos()), ok, "the evaluation's "+s.what+" flow to the sink only on its success edge", "when the new sync function rejects the document, the "+s.what+" it accumulated before rejecting are still applied by resync: "+why)
+	}
+	// the decision to rewrite the document takes all three outcomes into account
+	var changedCell *ssa.Alloc
+	EachInstr(top, false, func(in ssa.Instruction) {
+		if al, ok := in.(*ssa.Alloc); ok && al.Comment == "changed" {
+			changedCell = al
+		}
+	})
+	if changedCell == nil {
+		r.Fail("C18-R2", "fn=getResyncedDocument rewrite-decision", c.Pos(top.Pos()), "the variable deciding whether the document is rewritten was not found")
+	} else {
+		var vals []ssa.Value
+		for _, st := range storesInto(changedCell) {
+			if st.Parent() == lit {
+				vals = append(vals, st.Val)
+			}
+		}
+		for _, s := range sinks {
+			var res ssa.Value
+			for _, call := range c.Calls(lit, false, nameIs(s.callee)) {
+				if s.callee == "(*db.UserAccessMap).updateAccess" {
+					fa, ok := call.Common().Args[0].(*ssa.FieldAddr)
+					if !ok {
+						continue
+					}
+					f := structField(fa.X.Type(), fa.Field)
+					if (s.what == "access" && f != accF) || (s.what == "roles" && f != roleF) {
+						continue
+					}
+					res = valueOfCall(call)
+				} else {
+					for _, e := range resultValues(call.(*ssa.Call), 0) {
+						res = e
+					}
+				}
+			}
+			used := false
+			for _, v := range vals {
+				if res != nil && DependsOn(v, func(x ssa.Value) bool { return x == res }) {
+					used = true
+				}
+			}
+			r.Check("C18-R2", "fn=getResyncedDocument$leaf rewrite-decision counts="+s.what+"-changes", c.Pos(lit.Pos()), used, "a change in "+s.what+" forces the document to be rewritten", "changes in "+s.what+" produced by the new sync function do not count towards rewriting the document: a document whose only difference is in its "+s.what+" keeps the old grants and principals are never invalidated")
+		}
 	}
 	// grants only for the current revision
 	for _, call := range c.Calls(lit, false, nameIs("(*db.UserAccessMap).updateAccess", "(*db.Document).updateChannels")) {
